@@ -300,6 +300,39 @@ def _(ctx):
         ctx.prove('path%d.ZP' % k, ax, z3.If(swappedP, z3.And(*[z3real(zp.get(0, j)) == z3real(zp0.get(1, j)) for j in range(2)] + [z3real(zp.get(1, j)) == z3real(zp0.get(0, j)) for j in range(2)]),
                                               z3.And(*[z3real(zp.get(i, j)) == z3real(zp0.get(i, j)) for i in range(2) for j in range(2)])))
 
+@obligation('C08.goldstone_reordering.rounded_spectrum', fns=[(ME, 'THDM_mass_eigenstates::reorder_MSbar_masses'), ('src/gm2_eigen_utils.hpp', 'move_goldstone_to'), ('src/gm2_eigen_utils.hpp', 'closest_index')],
+            replay=replay_mass_basis)
+def _(ctx):
+    """the same contract for a spectrum as the eigen-solver really delivers it -- accurate to its documented error bound, not exact: requires MAh = sort(gZ, mA), MHm = sort(gW, mH+)
+    with |gZ - MZ| <= 1e-9 MZ, |gW - MW| <= 1e-9 MW (C12: error bound EPS ||m||) and the physical masses further away from MZ, MW than that.
+    ensures: the Goldstone states (gZ, gW) sit at index 0, the physical states at index 1, whichever of them is lighter"""
+    mz, mw, mA, mHp, gz, gw = ctx.reals('MVZ MVWm mA mHp gZ gW')
+    d = Fr(1, 10**9)
+    absz_ = lambda t: z3.If(t >= 0, t, -t)
+    pre = [mz > 0, mw > 0, mA > 0, mHp > 0, mw < mz, gz > 0, gw > 0, absz_(gz - mz) <= d * mz, absz_(gw - mw) <= d * mw,
+           absz_(mA - mz) > 3 * d * mz, absz_(mHp - mw) > 3 * d * mw]
+    it = Interp(ctx.w, mode='sym', assumptions=pre)
+    th = it.new_object('THDM', symbolic_fields(None, prefix='r.'))
+    th.f['MVZ'], th.f['MVWm'] = mz, mw
+    lo = lambda a, b: z3.If(a <= b, a, b)
+    hi = lambda a, b: z3.If(a <= b, b, a)
+    th.f['MAh'] = Mat(2, 1, [[lo(gz, mA)], [hi(gz, mA)]], 'array', False)
+    th.f['MHm'] = Mat(2, 1, [[lo(gw, mHp)], [hi(gw, mHp)]], 'array', False)
+    def run():
+        t2 = Obj(th.cls, {k: (v.copy() if isinstance(v, Mat) else v) for k, v in th.f.items()})
+        it.call('reorder_MSbar_masses', [], this=t2)
+        return t2
+    paths = it.run_paths(run)
+    ctx.merge_rules(it)
+    pins = [dict(MVZ=Fr('91.1876'), MVWm=Fr('80.385'), mA=a, mHp=h, gZ=Fr('91.1876') * (1 + e), gW=Fr('80.385') * (1 - e))
+            for a in (40, 300) for h in (50, 440) for e in (Fr(0), Fr(1, 10**12), Fr(1, 10**10))]
+    for k, (sym, t2, exc) in enumerate(paths):
+        ax = pre + sym.pc
+        A, H = t2.f['MAh'], t2.f['MHm']
+        ctx.prove('path%d.MAh' % k, ax, z3.And(z3real(A.get(0)) == gz, z3real(A.get(1)) == mA), pins=pins)
+        ctx.prove('path%d.MHm' % k, ax, z3.And(z3real(H.get(0)) == gw, z3real(H.get(1)) == mHp), pins=pins)
+    ctx.record('paths', PROVED if paths else ERROR, 'B', 0, '%d paths' % len(paths))
+
 def angle_sign_axioms(it, theta):
     """A-LIBM: sign of cos on (-3pi/2, 3pi/2), instantiated for the angle term theta"""
     pi = z3.Real('c_PI')
